@@ -31,7 +31,7 @@ ASSUMPTIONS = ['behaviour when close() itself raises, and non-string stream name
                'the inline data URL is accepted in the form the helper writes it (parameters in any order) as long as '
                'its base64 payload decodes to the map']
 BUDGET_S = {'quick': 90, 'thorough': 600}
-REQUIRED_HITS = ['io.write', 'io.read', 'fault_injected', 'close_checked', 'sourcemap.write', 'map_compared']
+REQUIRED_HITS = ['io.write', 'io.read', 'fault_injected', 'close_checked', 'sourcemap.write', 'map_compared', 'self_returning_factory']
 FLOOR = {'quick': 300, 'thorough': 3000}
 
 PROGRAMS = ['var a = 1;', 'function f(x) { return x + 1; }\nf(2);', 'if (a) { b(); } else c = [1, , 2];',
@@ -115,6 +115,20 @@ class Factory(object):
         return s
 
 
+class SelfFactory(Stream):
+    """a factory whose product is itself: a file object that opens lazily when called (a re-openable handle).  The
+    helper obtained it by calling the factory it was given, so it closes it, once"""
+
+    def __init__(self, log, label, **kw):
+        Stream.__init__(self, log, label, made_by_factory=True, **kw)
+        self.opened = 0
+
+    def __call__(self):
+        self.log.event(self.label, 'open')
+        self.opened += 1
+        return self
+
+
 def expected_paths(out_name, map_name, sources):
     """independent computation of file / sources / URL (os.path only)"""
     def rel(base, target):
@@ -128,7 +142,11 @@ def audit_closure(log, streams, injected, raised):
     """offline checker over the event log: closure and propagation"""
     out = []
     for s in streams:
-        if s.made_by_factory:
+        if isinstance(s, SelfFactory) and not s.opened:
+            # the helper never (successfully) called it: it has obtained nothing, so there is nothing for it to close
+            if s.closed:
+                out.append(('C18:passed_in_stream_closed', 'callable %s that was never called was closed' % s.label))
+        elif s.made_by_factory:
             if s.closed != 1:
                 out.append(('C18:factory_stream_closed_%s_times' % ('zero' if s.closed == 0 else 'several'),
                             'stream %s made by a factory was closed %d times' % (s.label, s.closed)))
@@ -255,6 +273,9 @@ def run_write(ctx, arr, fault=None):
         kw_out['encoding'] = out_encoding
     if out_kind == 'factory':
         out_arg = Factory(log, 'out', **kw_out)
+    elif out_kind == 'selffactory':
+        out_arg = SelfFactory(log, 'out', **kw_out)
+        streams.append(out_arg)
     else:
         out_arg = Stream(log, 'out', **kw_out)
         streams.append(out_arg)
@@ -264,6 +285,9 @@ def run_write(ctx, arr, fault=None):
         map_arg = out_arg
     elif map_kind == 'factory':
         map_arg = Factory(log, 'map', **kw_map)
+    elif map_kind == 'selffactory':
+        map_arg = SelfFactory(log, 'map', **kw_map)
+        streams.append(map_arg)
     else:
         map_arg = Stream(log, 'map', **kw_map)
         streams.append(map_arg)
@@ -603,6 +627,15 @@ def arrangements(ctx):
                 yield ('factory', mk, 'relative', 'single' if j % 2 else 'list',
                        'pretty!raw' if j % 3 else 'minify_obfuscate!raw', 'default', True,
                        (prog,) if j % 2 else (prog, PROGRAMS[(j + 1) % len(PROGRAMS)]))
+    # factories that return themselves (a lazily opening file object): obtained by calling, hence closed, once
+    for j, prog in enumerate(PROGRAMS[:6]):
+        for ok, mk in (('selffactory', 'none'), ('selffactory', 'factory'), ('factory', 'selffactory'), ('selffactory', 'selffactory'),
+                       ('open', 'selffactory'), ('selffactory', 'open')):
+            k += 1
+            if k % ctx.nshards == ctx.shard:
+                ctx.hit('self_returning_factory')
+                yield (ok, mk, 'relative' if j % 2 else 'absolute', 'single' if j % 3 else 'list', 'pretty' if j % 2 else 'minify_obfuscate',
+                       'default', True, (prog,) if j % 3 else (prog, PROGRAMS[(j + 2) % len(PROGRAMS)]))
     # output streams that declare an encoding: the inline map is written in it and says so; what it cannot
     # represent cannot be written
     for prog in PROGRAMS:
